@@ -296,7 +296,10 @@ func NewSysMachine(env *sim.Env, idx int, hole *SimMem) (*SysMachine, error) {
 		rom[i] = 0
 	}
 	s.Logger = nil
-	if err := s.Bus.Attach(sm.px, "hole", 0, 0xFFFFFF); err != nil {
+	if hole == nil {
+		// no cover: start from an empty bus so that unattached ranges really are unattached
+		s.Bus = bus.Bus{}
+	} else if err := s.Bus.Attach(sm.px, "hole", 0, 0xFFFFFF); err != nil {
 		return nil, err
 	}
 	if err := s.CreateEmulator(); err != nil {
